@@ -185,6 +185,25 @@ func planC10(tier string, root *simcore.RNG) *plan {
 				Env: Env{GOMAXPROCS: pick(r, []int{1, 4, 16}), CPUs: 16, Race: true}}
 			pl.scenarios = append(pl.scenarios, sc)
 		}
+		// many points per caller: small direct-mapped tables and hashed caches only
+		// collide when enough distinct points are in play
+		{
+			nm := 1
+			if tier == "thorough" {
+				nm = 8
+			}
+			for k := 0; k < nm && !e.Heavy; k++ {
+				r := root.Fork()
+				j := Job{ID: 1, Kind: "eval", Model: name, Callers: 3 + r.Intn(2), Points: 128 + r.Intn(64), CoordSeed: r.Uint64(), Leaves: r.Intn(3) == 0}
+				sc := &Scenario{Prop: "C10", Family: "eval", Seed: r.Uint64(), Groups: [][]Job{{j}},
+					Sites: map[string]uint32{"caller": 1, "leaf.pre": 2, "leaf.post": 2, "auto": 1}, Sched: genSched(r, []string{"caller:0", "caller:1"}),
+					Env: Env{GOMAXPROCS: pick(r, []int{1, 4, 16}), CPUs: 16, Race: true}, Note: "many-points"}
+				if sc.Sched.Policy == "fifo" || sc.Sched.Policy == "lifo" {
+					sc.Sched.Policy = "uniform"
+				}
+				pl.scenarios = append(pl.scenarios, sc)
+			}
+		}
 		// stateful wrappers: a long sequential query history before the concurrent phase
 		stateful := false
 		for _, c := range e.Ctors {
